@@ -211,9 +211,11 @@ class ReadElementStatus(SCSICommand):
                 _r += _rr
                 if _esp["pvoltag"]:
                     _rr = bytearray(36)
+                    _rr[:] = (bytes(_ed.get("primary_volume_tag", b"")) + bytes(36))[:36]
                     _r += _rr
                 if _esp["avoltag"]:
                     _rr = bytearray(36)
+                    _rr[:] = (bytes(_ed.get("alternate_volume_tag", b"")) + bytes(36))[:36]
                     _r += _rr
                 _rr = bytearray(4)
                 _r += _rr
